@@ -51,6 +51,10 @@ pub struct World {
     pub trace: Vec<String>,
     pub steps: u64,
     pub t0: i64,
+    /// explicit wire form for the next HTTP request (S6)
+    pub wire_override: Option<crate::http::WireReq>,
+    /// raw HTTP response of the last request
+    pub last_raw: Option<crate::http::RawResp>,
 }
 
 pub struct StepOut {
@@ -97,6 +101,8 @@ impl World {
             trace: Vec::new(),
             steps: 0,
             t0: sched::now_us(),
+            wire_override: None,
+            last_raw: None,
         };
         w.proj = w.take_projection()?;
         Ok(w)
@@ -128,7 +134,11 @@ impl World {
         self.inst.ctl.begin_request(vec![]);
         let resp = match (self.entry, &self.app) {
             (Entry::Http, Some(app)) => {
-                let (resp, raw, mm) = call_http(&self.inst, app, req, ch);
+                let (resp, raw, mm) = match self.wire_override.take() {
+                    Some(w) => crate::http::call_http_wire(&self.inst, app, req, w),
+                    None => call_http(&self.inst, app, req, ch),
+                };
+                self.last_raw = raw.clone();
                 for m in mm {
                     out.violations.push(m.into());
                 }
@@ -850,7 +860,25 @@ pub fn gen_plan(seed: u64, backend: Backend, entry: Entry, focus: Focus, thoroug
         allow_restart: true,
         allow_seed: true,
     };
-    let ops = gen_ops(&mut r, &p, n_clients, &cfg, page);
+    let mut ops = gen_ops(&mut r, &p, n_clients, &cfg, page);
+    // swarm knob: in some runs clients deliberately quote each other's ids
+    if n_clients >= 2 && r.chance(30, 100) {
+        let share = r.range(10, 40) as u64;
+        for op in ops.iter_mut() {
+            if r.chance(share, 100) {
+                let foreign = if r.chance(75, 100) {
+                    IdArg::Foreign { dc: r.below(3) as u8, back: r.below(5) as u8 }
+                } else {
+                    IdArg::ForeignSnap { dc: r.below(3) as u8 }
+                };
+                match op {
+                    Op::AddVersion { parent, .. } | Op::GetChild { parent, .. } => *parent = foreign,
+                    Op::AddSnapshot { v, .. } => *v = foreign,
+                    _ => {}
+                }
+            }
+        }
+    }
     let start_us = if whole_sec { r.range(0, 86_400) * 1_000_000 } else { r.range(0, 86_400_000_000) };
     SeqPlan {
         seed,
